@@ -67,9 +67,10 @@ class SymObj:
 
 
 class Closure:
-    __slots__ = ("node", "env", "glob", "selfcls", "name")
+    __slots__ = ("node", "env", "glob", "selfcls", "name", "defcls")
 
-    def __init__(self, node, env, glob, selfcls=None, name=None):
+    def __init__(self, node, env, glob, selfcls=None, name=None, defcls=None):
+        self.defcls = defcls
         self.node = node
         self.env = env
         self.glob = glob
